@@ -203,6 +203,8 @@ var c20Pool = []string{"$a + 1", "[$a + 1, $a]", "[$a + $a, $a, $b]", "$a", "$a 
 	// locals keep every digit: integers beyond 2^53 and their successors
 	"$a = [x, 1]", "$a = [1, k]", "$b = [$a, x]", "$a = [x, 1], $a = [k], $a", // locals holding lists, re-bound to other lists
 	"$a = 7, this.$a", "$b = x, [this.$b, $b, this.x]", "$a = $a, this.$a",
+	// a local counted up or down on the left of a logical operator: once per evaluation
+	"($a = $a + 1) || 0", "($a = $a + 1) && k", "[($a = $a + 1) || 0, $a]", "($b = $a) || x", "$b = ($a = $a + 1) && $a",
 	// locals bound inside a list or under a condition, also as the first thing a runner without a map does
 	"[$a = 6, $a + 1]", "$b = [$a = 4], $a", "$a = true ? 7 : 8", "$b = false ? $a : k", "$a = x == 1 ? x : k", "$a = k ?? 3",
 	// data entries named like builtins are entries all the same when read through this.
@@ -212,7 +214,7 @@ var c20Pool = []string{"$a + 1", "[$a + 1, $a]", "[$a + $a, $a, $b]", "$a", "$a 
 var c20Alphabet = []runnerOp{
 	{Op: "setthis", Map: "A"}, {Op: "setthis", Map: "B"}, {Op: "setthis", Map: ""}, {Op: "setthis", Map: "E"},
 	{Op: "setvalue", Key: "x", Val: 50}, {Op: "setvalue", Key: "$a", Val: 60},
-	{Op: "resolve", F: "$a = x + 1, this.$a"}, {Op: "resolve", F: "[x, $a, k]"}, {Op: "resolve", F: "$a = 5"}, {Op: "resolve", F: "this.x"}, {Op: "resolve", F: "[$a + 1, $a]"}, {Op: "resolve", F: "[$a = 6, $a]"},
+	{Op: "resolve", F: "$a = x + 1, this.$a"}, {Op: "resolve", F: "[x, $a, k]"}, {Op: "resolve", F: "$a = 5"}, {Op: "resolve", F: "this.x"}, {Op: "resolve", F: "[($a = $a + 1) || 0, $a]"}, {Op: "resolve", F: "[$a = 6, $a]"},
 	{Op: "write", Key: "x", Val: 70},
 	{Op: "set", Key: "x", Val: 99}, {Op: "get", Key: "x"}, {Op: "get", Key: "$a"}, {Op: "set", Key: "$a", Val: 98},
 }
@@ -296,7 +298,7 @@ func TestC20Exhaustive(t *testing.T) {
 
 // TestC20Random: longer histories with the full formula pool.
 func TestC20Random(t *testing.T) {
-	run := h.Begin("C20", "random", "rapid: histories of 1-14 operations drawn from the same operation kinds with random keys {x, k, $a, $b, __v, $__v, len, year}, random integer values (1 in 5 beyond 2^53) or strings that look like timestamps / numbers / keywords, and the 40-formula pool (locals are entries of the data map: also read back through this.$name within the same evaluation); same oracle; non-trivial as in the exhaustive part; distinct by history")
+	run := h.Begin("C20", "random", "rapid: histories of 1-14 operations drawn from the same operation kinds with random keys {x, k, $a, $b, __v, $__v, len, year}, random integer values (1 in 5 beyond 2^53) or strings that look like timestamps / numbers / keywords, and the 45-formula pool (locals are entries of the data map: also read back through this.$name within the same evaluation); same oracle; non-trivial as in the exhaustive part; distinct by history")
 	defer run.End(t)
 	h.RapidSetup(h.N(6000, 2000000), "c20rand")
 	rapid.Check(t, func(rt *rapid.T) {
